@@ -207,10 +207,17 @@ class FixedMarginBusiness(Sector):
                                           '%s * %s' % (utils.format_parameter(wage_share, '%0.3f'), market_sup_good))
             self.SetEquationRightHandSide('PROF', '%s * %s' % (utils.format_parameter(self.ProfitMargin, '%0.3f'), market_sup_good))
         for s in self.Parent.SectorList:
+            # Another business has a DIV variable too (the dividends it pays out); it is not a recipient.
+            if s.ID == self.ID or isinstance(s, FixedMarginBusiness):
+                continue
             if 'DIV' in s.EquationBlock.Equations:
                 Logger('Adding dividend flow', priority=5)
                 self.AddCashFlow('-DIV', 'PROF', 'Dividends paid', is_income=False)
-                s.AddCashFlow('DIV', self.GetVariableName('PROF'), 'Dividends received', is_income=True)
+                if s.EquationBlock['DIV'].RHS() in ('', '0.0'):
+                    s.AddCashFlow('DIV', self.GetVariableName('PROF'), 'Dividends received', is_income=True)
+                else:
+                    # A second payer: the recipient's dividend income (already booked once) becomes the sum.
+                    s.AddTermToEquation('DIV', self.GetVariableName('PROF'))
                 break
 
 
